@@ -8,7 +8,8 @@
               (A + dA) x^ = b      EXACTLY in the right-hand side, row by row through the row permutation tau,
               |dA| <= (3 g + g^2) P^T |L^| |U^| ,   g = gam (n+1) ,
         where L^ is the unit lower triangular matrix of the multipliers the elimination used (the code does not store
-        them: L^ is existentially quantified) and U^ the upper triangle of the computed echelon form.
+        them: L^ is existentially quantified, with |l_ik| <= 1 + u by partial pivoting, Proofs/RoundGaussMult.v) and U^
+        the upper triangle of the computed echelon form.
 
    The right-hand side needs no perturbation here: gauss_with_pivot permutes and eliminates b along with the matrix, so
    b is simply one more column of the factorisation (Proofs/RoundGaussTrace.v).  As for solve_lu, comparing |L^||U^|
@@ -17,7 +18,8 @@
 From Coq Require Import List Arith Lia Bool Reals Lra Psatz.
 From OV Require Import Base.Panic Base.Arith Base.RoundModel Model.Vector Model.Matrix Model.Solve
   Proofs.Matrix Proofs.LUPrim Proofs.RoundDot Proofs.RoundMatvec Proofs.RoundBacksolve Proofs.RoundLUShape
-  Proofs.RoundLUFun Proofs.RoundLUTrace Proofs.RoundLUError Proofs.RoundSolveLU Proofs.RoundInverseLU Proofs.RoundGaussTrace.
+  Proofs.RoundLUFun Proofs.RoundLUTrace Proofs.RoundLUError Proofs.RoundSolveLU Proofs.RoundInverseLU Proofs.RoundGaussTrace
+  Proofs.RoundGaussMult.
 Import ListNotations.
 Local Open Scope R_scope.
 
@@ -103,6 +105,7 @@ Theorem solve_basic_backward_error_lemma (m m' : matrix AR) (b b' x : list R) :
      (forall r, (r < rows m)%nat -> (tau r < rows m)%nat) /\
      (forall r r', (r < rows m)%nat -> (r' < rows m)%nat -> tau r = tau r' -> r = r') /\
      (forall i, L i i = 1) /\ (forall i k, (i < k)%nat -> L i k = 0) /\
+     (forall i k, (k < i)%nat -> (i < rows m)%nat -> Rabs (L i k) <= 1 + u) /\
      exists dA : nat -> nat -> R,
        (forall i c, (i < rows m)%nat -> (c < rows m)%nat ->
           Rabs (dA i c) <= (3 * gam (S (rows m)) + gam (S (rows m)) * gam (S (rows m)))
@@ -119,17 +122,18 @@ Proof using u_range fsub_ok fmul_ok fdiv_ok.
   apply Nat.eqb_eq in Lb.
   match type of E with (if negb ?c then _ else _) = _ => destruct c eqn:Sq end; cbn [negb] in E; [|discriminate].
   apply Nat.eqb_eq in Sq. rewrite EG in E. cbn [bind fst snd] in E.
-  destruct (gauss_trace fadd fsub fmul fdiv m m' b b' W Sq (eq_sym Lb) EG) as (SM' & Lb' & GT).
+  destruct (gauss_trace_mult u u_range fadd fsub fmul fdiv fdiv_ok m m' b b' W Sq (eq_sym Lb) EG) as (SM' & Lb' & GT).
   fold n in SM', Lb', GT. destruct (SM') as (WM' & RM' & CM').
   destruct (backsolve_backward_error_lemma u u_range fadd fsub fmul fdiv fsub_ok fmul_ok fdiv_ok m' b' x WM'
               ltac:(congruence) ltac:(rewrite RM'; exact Lb') ltac:(rewrite RM'; exact Hn)
               ltac:(rewrite RM'; exact Dg) E) as (Lx & dU & HdU & RowsU).
   rewrite RM' in Lx, HdU, RowsU. split; [exact Lx|].
-  destruct GT as [Bad|(tau & H & T1 & T2 & RL & GD)]; [left; exact Bad|right].
+  destruct GT as [Bad|(tau & H & T1 & T2 & RL & GD & MO)]; [left; exact Bad|right].
   set (Lf := fun r k => if (k <? r)%nat then H r k else if (k =? r)%nat then 1 else 0).
   exists tau, Lf. split; [exact T1|]. split; [exact T2|].
   split; [intros i; unfold Lf; now rewrite Nat.ltb_irrefl, Nat.eqb_refl|].
   split; [intros i k Hik; unfold Lf; destruct (Nat.ltb_spec k i); [lia|]; destruct (Nat.eqb_spec k i); [lia|reflexivity]|].
+  split; [intros i k Hki Hi; unfold Lf; destruct (Nat.ltb_spec k i); [|lia]; apply MO; lia|].
   set (g := gam (S n)).
   assert (Hg : 0 <= g) by now apply (gam_nonneg u u_range).
   assert (DgH : forall k, (k < n)%nat -> H k k <> 0).
